@@ -309,8 +309,8 @@ pub fn named() -> SweepProfile {
         },
         flags: vec![fl(""), fl("u")],
         alphabet: cps("ab"),
-        size_quick: 4,
-        size_thorough: 5,
+        size_quick: 6,
+        size_thorough: 7,
         hay_quick: 3,
         hay_thorough: 4,
     }
